@@ -56,7 +56,7 @@ PROPS = {
         "native": [
             {"name": "type_universe_distinct_and_stable", "bin": "replay_c14", "crate": "replay", "twice": True,
              "pre": "python3 lib/gen_c14_universe.py out/aux/c14_universe.rs", "tiers": ("quick", "thorough"),
-             "bound": "6006 types of a generated constructor-closed universe (all unary constructors over all leaves, nestings to depth 3, binary constructors in both argument orders, permuted tuples, array lengths, derived user types): ids evaluated on the real crate, pairwise distinct, identical in two separate processes"},
+             "bound": "6264 types of a generated constructor-closed universe (EVERY leaf type that has an Identifiable impl incl. the smallvec/bitvec features, all unary constructors over the main leaves, nestings to depth 3, binary constructors in both argument orders, permuted tuples, array lengths, derived user types): ids evaluated on the real crate, pairwise distinct, identical in two separate processes"},
             {"name": "store_slots_by_type_id", "bin": "replay_c14_store", "crate": "replay_db", "release": False, "tiers": ("quick", "thorough"), "thorough_seeds": 1,
              "bound": "the REAL RocksDB and Fjall backends: 24 column types with crafted stable type ids whose renderings are easy to confuse (leading-zero halves, digits moving between the 64-bit halves, swapped / zero halves, prefixes of one another), both column kinds: each column holds its own index, read back in the same session and after a reopen (column-family / keyspace names are derived from the id by format!: not under contract)"},
         ],
